@@ -183,7 +183,36 @@ func lessBytes(a, b string) bool {
 	return len(a) < len(b)
 }
 
-// ListSortStable sorts by name in byte-wise order, preserving the relative
+// codeUnits: the UTF-16 code units of the scalar-value reading of s (bytes that are not valid UTF-8
+// count as U+FFFD).
+func codeUnits(s string) []uint16 {
+	rs := []rune(s)
+	out := make([]uint16, 0, len(s))
+	for i := 0; i < len(rs); i++ {
+		r := rs[i]
+		if r >= 0x10000 {
+			r = r - 0x10000
+			out = append(out, uint16(0xD800+(r>>10)), uint16(0xDC00+(r&0x3FF)))
+		} else {
+			out = append(out, uint16(r))
+		}
+	}
+	return out
+}
+
+// lessCodeUnits: the standard's order for URLSearchParams sort: "comparison of code units". It differs
+// from byte-wise (= code point) order exactly when a code point in U+E000..U+FFFF meets one above U+FFFF.
+func lessCodeUnits(a, b string) bool {
+	x, y := codeUnits(a), codeUnits(b)
+	for i := 0; i < len(x) && i < len(y); i++ {
+		if x[i] != y[i] {
+			return x[i] < y[i]
+		}
+	}
+	return len(x) < len(y)
+}
+
+// ListSortStable sorts by name by comparison of UTF-16 code units, preserving the relative
 // order of pairs with equal names (insertion sort).
 func ListSortStable(l []Pair) []Pair {
 	out := make([]Pair, len(l))
@@ -191,7 +220,7 @@ func ListSortStable(l []Pair) []Pair {
 	for i := 1; i < len(out); i++ {
 		cur := out[i]
 		j := i
-		for j > 0 && lessBytes(cur.Name, out[j-1].Name) {
+		for j > 0 && lessCodeUnits(cur.Name, out[j-1].Name) {
 			out[j] = out[j-1]
 			j = j - 1
 		}
